@@ -470,6 +470,118 @@ class C10(Plan):
                              "thin.create:with_arc_mut-fresh"])
 
 
+
+def shapes_jobs(mode, fam, seed, props, frac=1, nshards=4, extra=(), timeout=1200, crash=None):
+    jobs = []
+    for k in range(nshards):
+        args = ["shapes", "fam=%s" % fam, "seed=%d" % seed, "frac=%d" % frac, "shard=%d" % k, "nshards=%d" % nshards] + list(extra)
+        if mode in ("asan", "memcheck"):
+            args.append("shadow=0")
+        jobs.append(Job(mode, args, san_props=props, crash_props=props if crash is None else crash, timeout=timeout, bin="tvs"))
+    return jobs
+
+
+def miri_shapes_jobs(fam, seed, props, n, frac, extra=()):
+    jobs = []
+    for k in range(n):
+        jobs.append(Job("miri", ["shapes", "fam=%s" % fam, "seed=%d" % seed, "frac=%d" % frac, "shard=%d" % k, "nshards=%d" % n] + list(extra),
+                        san_props=props, crash_props=props, miri_seed=seed * 4096 + k, tb=(k % 4 == 3), timeout=2400, bin="tvs"))
+    return jobs
+
+
+class ShapesPlan(Plan):
+    prop = "C05"
+    fams = "all"
+    rule = ""
+
+    def jobs(self, tier, seed):
+        p = (self.prop,)
+        j = []
+        if tier == "quick":
+            j += shapes_jobs("dbg", self.fams, seed, p, frac=1, nshards=4)
+            j += shapes_jobs("rel", self.fams, seed, p, frac=3, nshards=2)
+            j += shapes_jobs("nostd", self.fams, seed, p, frac=3, nshards=2)
+            j += shapes_jobs("asan", self.fams, seed, p, frac=4, nshards=4)
+            j += miri_shapes_jobs(self.fams, seed, p, 16, 40, extra=["maxlen=9"])
+        else:
+            for m in ("dbg", "rel", "off", "nostd"):
+                j += shapes_jobs(m, self.fams, seed, p, frac=1, nshards=4, extra=["scripts=12"])
+            j += shapes_jobs("asan", self.fams, seed, p, frac=1, nshards=8, extra=["scripts=4"])
+            j += shapes_jobs("memcheck", self.fams, seed, p, frac=6, nshards=16, timeout=3000)
+            j += miri_shapes_jobs(self.fams, seed, p, 96, 6, extra=["maxlen=33"])
+        return j
+
+    def coverage(self, counts, sets, samples, other, results):
+        full = any(r.job.mode in ("dbg", "rel", "off") and "frac=1" in r.job.args for r in results)
+        return dict(
+            evaluations=counts.get("shapes.cases", 0),
+            distinct_nontrivial=len(sets.get("shape_cases", ())),
+            rule=self.rule,
+            samples=[x for smp in samples for x in smp.get("trace", [])][:12] or samples,
+            exhaustive=bool(full),
+            constructors={k: v for k, v in counts.items() if ".ctor:" in k},
+            release_paths={k: v for k, v in counts.items() if ".rel:" in k},
+            union_cases=counts.get("shapes.union", 0),
+            overflow_cases=counts.get("shapes.overflow", 0),
+            refused_zero_sized=counts.get("shapes.b.refused-zst", 0) + counts.get("shapes.c.refused-zst", 0),
+            allocator_checked_frees=other.get("checked_frees", 0),
+        )
+
+
+class C05(ShapesPlan):
+    prop = "C05"
+    fams = "all"
+    rule = ("declared finite matrix: header shapes {(),u8,[u8;3],u64,(u64,u8),[u8;33],A16,A64,ZA16(0 bytes,align 16)} x element shapes {u8,u16,[u8;3],u64,[u8;9],A16,A32,(),ZD(zero-sized with Drop)} "
+            "x lengths {0,1,2,3,7,8,9,31,32,33,255} x 7 header+slice constructors x 8 release paths; Arc<[T]>/str: 11 element shapes x lengths x 7 constructors x 5 release paths; "
+            "13 sized shapes x 7 constructors x 12 release paths; 11 overflowing size computations. One evaluation = one (shape, length, constructor, release path) case observed by the shadow "
+            "allocator (block size/alignment adequate, payload inside the block and aligned, exactly that block freed with the requested layout, nothing left). "
+            "distinct_nontrivial = distinct (shapes, length, constructor, release path) cases executed; the dbg build runs the whole matrix (exhaustive=true), other modes a seeded fraction")
+    assumptions = COMMON_ASSUME + ["shapes outside the declared matrix (align > 64, size > 64) are not exercised"]
+
+    def required(self, counts, sets, other):
+        return need(counts, ["shapes.overflow", "shapes.union", "shapes.str", "shapes.cases"])
+
+
+class C11(ShapesPlan):
+    prop = "C11"
+    fams = "all"
+    rule = ("same declared matrix as C05; one evaluation = one case in which as_ptr / &*handle / into_raw / OffsetArc and ArcBorrow bit patterns / arc-swap RefCnt pointers are compared with each "
+            "other and with the block address recorded by the shadow allocator, from_raw-style round trips (also through a trait-object cast) are checked for same allocation, contents "
+            "and count, and size_of of every handle type and its Option is asserted; distinct_nontrivial = distinct (shapes, length, constructor, release/round-trip path) cases")
+    assumptions = COMMON_ASSUME + ["for ThinArc, as_ptr/into_raw/ptr/heap_ptr are required to be the block address (that is what from_raw takes), not the Deref address"]
+
+
+class C12(ShapesPlan):
+    prop = "C12"
+    fams = "u"
+    rule = ("all 13x13 ordered pairs of sized shapes {u8,u16,[u8;3],u64,[u8;9],(u64,u8),[u8;33],A16,A32,A64,(),ZA16,ZD} x both constructors x seeded 6-step scripts of "
+            "clone/drop/borrow.clone_arc on the union interleaved with plain-Arc operations on the same allocations; variant accessors, payload address, counts on the right allocation, "
+            "right destructor and layout at the last release through the union (shadow allocator), one-word size + niche, different variants never equal; "
+            "distinct_nontrivial = distinct (A, B, variant) triples")
+    assumptions = COMMON_ASSUME + ["ArcUnion histories with tracked payloads also run in the hist engine (C01/C04 checks)"]
+
+    def jobs(self, tier, seed):
+        p = ("C12",)
+        j = []
+        if tier == "quick":
+            j += shapes_jobs("dbg", "u", seed, p, nshards=2, extra=["scripts=4"])
+            j += shapes_jobs("rel", "u", seed, p, nshards=2, extra=["scripts=2"])
+            j += shapes_jobs("nostd", "u", seed, p, nshards=1, extra=["scripts=2"])
+            j += shapes_jobs("asan", "u", seed, p, nshards=2, extra=["scripts=1"])
+            j += miri_shapes_jobs("u", seed, p, 16, 4, extra=["scripts=1"])
+            j += hist_jobs("dbg", 400, 220, seed, (), (), nshards=2)
+        else:
+            for m in ("dbg", "rel", "off", "nostd"):
+                j += shapes_jobs(m, "u", seed, p, nshards=4, extra=["scripts=64"])
+            j += shapes_jobs("asan", "u", seed, p, nshards=8, extra=["scripts=8"])
+            j += miri_shapes_jobs("u", seed, p, 96, 1, extra=["scripts=2"])
+            j += hist_jobs("dbg", 40000, 300, seed, (), (), nshards=8)
+        return j
+
+    def required(self, counts, sets, other):
+        return need(counts, ["shapes.union.first", "shapes.union.second"])
+
+
 PLANS = {}
 PLANS["C01"] = C01()
 PLANS["C04"] = C04()
@@ -478,3 +590,6 @@ PLANS["C03"] = C03()
 PLANS["C08"] = C08()
 PLANS["C09"] = C09()
 PLANS["C10"] = C10()
+PLANS["C05"] = C05()
+PLANS["C11"] = C11()
+PLANS["C12"] = C12()
